@@ -31,7 +31,25 @@ def run_check(prop: str, tier: str, seed: int) -> int:
     mod = importlib.import_module(f"checks.{prop}")
     cr = CheckRun(prop, tier, seed, mod.RULE, mod.TECHNIQUE)
     units = mod.units(tier, seed)
-    cr.absorb_all(pmap(mod.run_unit, units))
+    # thorough runs are bounded by a wall-clock budget (default 25 min, VERIF_BUDGET_S); simplest grammars first, so
+    # that what is skipped when the budget expires is the tail of the largest grammars (reported in the evidence)
+    budget = None
+    if tier == "thorough":
+        budget = float(os.environ.get("VERIF_BUDGET_S", "1500"))
+
+        def size(u):
+            sp = u.get("spec") if isinstance(u, dict) else None
+            return (1 if (isinstance(sp, dict) and "," in sp.get("name", "")) else 0)
+
+        # interleave the unit kinds inside each size class, so that no kind of exploration is starved by the budget
+        pos: dict = {}
+        keyed = []
+        for u in units:
+            k = (size(u), u.get("kind") if isinstance(u, dict) else None)
+            pos[k] = pos.get(k, 0) + 1
+            keyed.append(((k[0], pos[k]), u))
+        units = [u for _, u in sorted(keyed, key=lambda x: x[0])]
+    cr.absorb_all(pmap(mod.run_unit, units, budget_s=budget))
     if hasattr(mod, "finalize"):
         mod.finalize(cr)
     return cr.finish()
